@@ -1053,6 +1053,9 @@ class OptionStore:
         else:
             assert key.subproject is not None
             old_value = self.augments.get(key, opt.value)
+            # A new override has to be saved even if it does not change the
+            # effective value right now: the parent value may change later.
+            changed |= key not in self.augments
             self.augments[key] = new_value
 
         changed |= old_value != new_value
